@@ -1,64 +1,558 @@
-"""Generated/DirProto.lean: directory-creation steps of the fitting stages' set-up code."""
+"""Generated/DirProto.lean: directory-creation steps of the fitting stages' set-up code.
+
+For `Likelihood.__init__` (every class of esr/fitting/likelihood.py) and `test_all.get_functions` the translator
+walks the statements in execution order and records every directory creation as one step
+
+    checkMkdir d        `os.mkdir(d)` executed only where `os.path.isdir(d)` / `os.path.exists(d)` was seen false
+    makedirsExistOk d   `os.makedirs(d, exist_ok=True)` (guarded or not)
+
+together with whether the step is executed by rank 0 only, and whether a rank-0-only creation is followed by a
+barrier that every rank reaches before any other rank does anything that is not inert.  Anything else that creates a
+directory (`os.mkdir` not under a recognised existence test of the same directory, `os.makedirs` without
+`exist_ok=True`, `Path(..).mkdir`, a helper that cannot be inlined) is an ExtractError: fail closed.
+
+What the walk understands (semantics-preserving normalisations, part of the trusted translator; N1-N5 are in
+extractors/_norm_c14.py):
+
+ N1  tests as conjunctions/disjunctions of literals: double negation, De Morgan, `not a == b`; facts known in the
+     body, in the `else` part and - guard inversion - after a branch that always jumps (`if isdir(d): continue` /
+     `return` followed by the creation; `else` after a jump dropped or present);
+ N2  rank-0 tests `rank == 0`, `0 == rank`, `not rank`, `rank < 1`, `rank <= 0` and negations (`if rank != 0: ...
+     else: create`), also as one conjunct (`if rank == 0 and not os.path.isdir(d)`); `rank` must be bound by
+     `<x>.Get_rank()` / `<x>.rank`;
+ N3  hoisted temporaries and named constants (`is_root = rank == 0`, `missing = not os.path.isdir(d)`,
+     `dirs = (a, b, c)`, `like_dir = ...; self.like_dir = like_dir`), tuple assignment and chained assignment:
+     names bound exactly once in the function to a pure expression are substituted, in statement order; a remembered
+     existence test is forgotten as soon as the same rank creates any directory, and a fact about `d` is forgotten
+     when a name occurring in `d` is re-bound;
+ N4  `(a, b, c)[k]`, `len((a, b, c))` with literal k;
+ N5  loops over a literal tuple/list (also via `enumerate`, `zip`, `range(len(lit))`, `range(3)`) are unrolled, so
+     that a loop over `(a, b, c)` and three duplicated statements give the same table; other loops are walked once
+     with the loop variable symbolic;
+ N6  a directory is named by the attribute it is stored in when the created expression is the (resolved) value
+     assigned to that attribute (`like_dir = ...; self.like_dir = like_dir; os.makedirs(like_dir)` -> `self.like_dir`);
+     names only label the table's `dirNames`, the theorems do not depend on them;
+ N7  one level of helper inlining: a module-level function, a method of the same class called as `self.f(..)` /
+     `Cls.f(..)`, or a nested closure, whose body (transitively) creates directories, is inlined at the call with
+     parameters bound to the resolved arguments (defaults included); a second level, `*args`/`**kwargs`, or a
+     decorated helper other than @staticmethod is an ExtractError;
+ N8  barrier after a rank-0 creation: the first following statement of the same statement list that is not inert
+     must be `<comm>.Barrier()` / `.barrier()`; inert = rank-0-only blocks, `print`, `sys.setrecursionlimit`,
+     assignments of pure expressions (merged / reordered adjacent `if rank == 0:` blocks).
+"""
 import ast
 import extract
 from extract import ExtractError, lstr
+from extractors import _norm_c14 as N
 
 extract.MODELLED += [("esr/fitting/likelihood.py", "Likelihood", "__init__")]
 
+CREATORS = ("mkdir", "makedirs")
+INERT_CALLS = ("print", "sys.setrecursionlimit", "len", "int", "float", "str", "np.ceil")
 
-def _steps(body, rank0=False, out=None, dirs=None):
-    """collect (kind, dir-expression, rank0Only, line) from a statement list"""
-    out = [] if out is None else out
-    for st in body:
+
+def _call_name(c):
+    try:
+        return ast.unparse(c.func)
+    except Exception:                                    # pragma: no cover
+        return "?"
+
+
+def _creates_directly(fn):
+    for c in ast.walk(fn):
+        if isinstance(c, ast.Call):
+            nm = _call_name(c)
+            if nm.split(".")[-1] in CREATORS:
+                return True
+    return False
+
+
+class _Scope(object):
+    """helpers visible from the anchored function: module-level defs, methods of its class, nested defs"""
+    def __init__(self, module, cls=None):
+        self.module = module
+        self.cls = cls
+        self.funcs = {n.name: n for n in module.body if isinstance(n, ast.FunctionDef)}
+        self.methods = {n.name: n for n in cls.body if isinstance(n, ast.FunctionDef)} if cls is not None else {}
+        self.nested = {}
+        # module-level names bound to the MPI rank: bound exactly once at module level, by `<x>.Get_rank()` / `<x>.rank`
+        top = {}
+        for st in module.body:
+            for x in ast.walk(st) if not isinstance(st, (ast.FunctionDef, ast.AsyncFunctionDef, ast.ClassDef)) else []:
+                if isinstance(x, ast.Name) and isinstance(x.ctx, (ast.Store, ast.Del)):
+                    top[x.id] = top.get(x.id, 0) + 1
+        self.rank_names = {a for a in N.rank_binding_names(module.body) if top.get(a, 0) == 1}
+
+    def lookup(self, call):
+        """(FunctionDef, drop_self) for a call of a helper defined in this module, else None"""
+        f = call.func
+        if isinstance(f, ast.Name):
+            if f.id in self.nested:
+                return self.nested[f.id], False
+            if f.id in self.funcs:
+                return self.funcs[f.id], False
+        if isinstance(f, ast.Attribute) and isinstance(f.value, ast.Name) and f.attr in self.methods:
+            static = any(isinstance(d, ast.Name) and d.id == "staticmethod" for d in self.methods[f.attr].decorator_list)
+            if f.value.id == "self":
+                return self.methods[f.attr], not static
+            if self.cls is not None and f.value.id == self.cls.name and static:
+                return self.methods[f.attr], False
+        return None
+
+    def refuse_foreign_method(self, call, line):
+        """`self.f(..)` where f is not a method of this class but a directory-creating method of another class of the
+        module (inherited helper): not inlined, so fail closed rather than record "no effect" """
+        f = call.func
+        if isinstance(f, ast.Attribute) and isinstance(f.value, ast.Name) and f.value.id in ("self", "cls") and f.attr not in self.methods:
+            for c in [n for n in self.module.body if isinstance(n, ast.ClassDef)]:
+                for m in c.body:
+                    if isinstance(m, ast.FunctionDef) and m.name == f.attr and _creates_directly(m):
+                        raise ExtractError("call of %s.%s (line %d): directory-creating method of another class is not inlined" % (c.name, m.name, line))
+
+    def creates(self, fn, seen=None):
+        """does `fn` create a directory, directly or through helpers of this module?"""
+        seen = set() if seen is None else seen
+        if id(fn) in seen:
+            return False
+        seen.add(id(fn))
+        if _creates_directly(fn):
+            return True
+        for c in ast.walk(fn):
+            if isinstance(c, ast.Call):
+                hit = self.lookup(c)
+                if hit is not None and self.creates(hit[0], seen):
+                    return True
+        return False
+
+
+class _Walk(object):
+    def __init__(self, scope, fn):
+        self.scope = scope
+        self.fn = fn
+        self.steps = []                 # dict(kind, dir, rank0, line, barrier)
+        self.stores = self._store_counts(fn)
+        self.rank_names = self._rank_names(scope, fn, self.stores)
+        self.attr_of = {}               # resolved value text -> attribute it is stored in (N6)
+
+    @staticmethod
+    def _rank_names(scope, fn, stores):
+        """module-level rank names not shadowed in `fn`, plus locals of `fn` bound once by `<x>.Get_rank()`"""
+        return {a for a in scope.rank_names if stores.get(a, 0) == 0} | \
+               {a for a in N.rank_binding_names(fn.body) if stores.get(a, 0) == 1}
+
+    @staticmethod
+    def _store_counts(fn):
+        cnt = {}
+        for n in ast.walk(fn):
+            if isinstance(n, ast.Name) and isinstance(n.ctx, (ast.Store, ast.Del)):
+                cnt[n.id] = cnt.get(n.id, 0) + 1
+            elif isinstance(n, (ast.Global, ast.Nonlocal)):
+                for x in n.names:
+                    cnt[x] = cnt.get(x, 0) + 2
+            elif isinstance(n, ast.arg):
+                cnt[n.arg] = cnt.get(n.arg, 0) + 1       # a parameter is bound on entry: re-binding it makes 2
+            elif isinstance(n, ast.ExceptHandler) and n.name:
+                cnt[n.name] = cnt.get(n.name, 0) + 2
+            elif isinstance(n, ast.alias):
+                nm = (n.asname or n.name).split(".")[0]
+                cnt[nm] = cnt.get(nm, 0) + 2
+            elif isinstance(n, (ast.FunctionDef, ast.AsyncFunctionDef, ast.ClassDef)) and n is not fn:
+                cnt[n.name] = cnt.get(n.name, 0) + 2
+            elif isinstance(n, (ast.MatchAs, ast.MatchStar)) and n.name:
+                cnt[n.name] = cnt.get(n.name, 0) + 2
+            elif isinstance(n, ast.MatchMapping) and n.rest:
+                cnt[n.rest] = cnt.get(n.rest, 0) + 2
+        return cnt
+
+    # ---- facts: dict(rank0=bool, missing={dir text: names mentioned}) -------------------------------------------
+    @staticmethod
+    def _mentions(d):
+        return N.names_in(d) | {ast.unparse(x) for x in ast.walk(d) if isinstance(x, ast.Attribute)}
+
+    def _apply(self, facts, lits):
+        f = dict(rank0=facts["rank0"], missing=dict(facts["missing"]))
+        for pos, atom in lits:
+            r = N.rank0_literal(pos, atom, self.rank_names)
+            if r is True:
+                f["rank0"] = True
+            d = N.exists_literal(atom)
+            if d is not None and not pos:
+                f["missing"][ast.unparse(d)] = self._mentions(d)
+        return f
+
+    def _forget(self, facts, env, names=None, created=False):
+        if created:
+            # the rank has changed the directory tree: remembered existence tests are stale (N3)
+            for k in [k for k, v in env.items() if any(N.exists_literal(c) is not None for c in ast.walk(v))]:
+                del env[k]
+        if names:
+            for k in [k for k, v in facts["missing"].items() if v & names]:
+                del facts["missing"][k]
+
+    # ---- statements ----------------------------------------------------------------------------------------------
+    @staticmethod
+    def _copy(facts):
+        return dict(rank0=facts["rank0"], missing=dict(facts["missing"]))
+
+    def walk(self, body, facts, env, depth):
+        """walk a statement list in execution order; `env` is updated in place.
+        Returns True if the list always ends in a jump (continue/break/return/raise)."""
+        for k, st in enumerate(body):
+            n0 = len(self.steps)
+            outer_r0 = facts["rank0"]
+            jumped, facts = self._stmt(st, facts, env, depth)
+            if not outer_r0:
+                # rank-0-only creation inside `st`: do all ranks meet at a barrier before another rank does anything
+                # that is not inert? (N8)  Tried at every nesting level until one succeeds.
+                pend = [s for s in self.steps[n0:] if s["rank0"] and s["barrier"] is not True]
+                if pend:
+                    b = self._inert(st, env) and self._barrier_follows(body[k + 1:], env)
+                    for s in pend:
+                        s["barrier"] = b
+            if jumped:
+                return True
+        return False
+
+    def _stmt(self, st, facts, env, depth):
+        """-> (always jumps, facts holding after the statement)"""
         if isinstance(st, ast.If):
-            test = ast.unparse(st.test)
-            r0 = rank0 or ("rank == 0" in test or "rank==0" in test)
-            if "isdir" in test and "not" in test:
-                # if not os.path.isdir(X): ... os.mkdir(X)
-                mk = [c for c in ast.walk(ast.Module(body=st.body, type_ignores=[])) if isinstance(c, ast.Call) and ast.unparse(c.func) in ("os.mkdir", "os.makedirs")]
-                if len(mk) != 1:
-                    raise ExtractError("isdir-guarded block at line %d does not contain exactly one mkdir" % st.lineno)
-                c = mk[0]
-                exist_ok = any(kw.arg == "exist_ok" and isinstance(kw.value, ast.Constant) and kw.value.value is True for kw in c.keywords)
-                out.append(("makedirsExistOk" if exist_ok else "checkMkdir", ast.unparse(c.args[0]), r0, st.lineno))
+            test = N.subst(st.test, env)
+            t_lits, f_lits = N.branch_facts(test)
+            self._scan_expr(test, facts, env, depth, st)
+            f_true, f_false = self._apply(facts, t_lits), self._apply(facts, f_lits)
+            e1, e2 = dict(env), dict(env)
+            j1 = self.walk(st.body, f_true, e1, depth)
+            j2 = self.walk(st.orelse, f_false, e2, depth)
+            # every name of env is bound exactly once in the function, so a binding made in one branch is THE value
+            # wherever the name is bound at all; an entry dropped in a branch that falls through is dropped
+            start = set(env)
+            merged = {}
+            for a in set(e1) | set(e2):
+                if a in start:
+                    if (j1 or a in e1) and (j2 or a in e2):
+                        merged[a] = env[a]
+                else:
+                    merged[a] = e1[a] if a in e1 else e2[a]
+            env.clear(); env.update(merged)
+            if j1 and j2:
+                return True, facts
+            if j1:
+                return False, f_false
+            if j2:
+                return False, f_true
+            keep = {a: b for a, b in facts["missing"].items() if a in f_true["missing"] and a in f_false["missing"]}
+            return False, dict(rank0=facts["rank0"], missing=keep)
+        if isinstance(st, ast.For):
+            it = N.subst(st.iter, env)
+            self._scan_expr(it, facts, env, depth, st)
+            binds = N.loop_bindings(st.target, it)
+            tnames = {x.id for x in ast.walk(st.target) if isinstance(x, ast.Name)}
+            if binds is not None and not st.orelse:                                        # N5: unroll
+                for b in binds:
+                    e = dict(env); e.update(b)
+                    self.walk(st.body, self._copy(facts), e, depth)     # continue/break end the iteration's walk
+                    env.clear(); env.update({a: v for a, v in e.items() if a not in tnames})
             else:
-                _steps(st.body, r0, out)
-                _steps(st.orelse, rank0, out)
-        elif isinstance(st, (ast.For, ast.With, ast.While)):
-            _steps(st.body, rank0, out)
-        elif isinstance(st, ast.Try):
-            _steps(st.body, rank0, out)
+                e = {a: v for a, v in env.items() if a not in tnames}
+                f = self._copy(facts)
+                self._forget(f, e, names=tnames)
+                self.walk(st.body, f, e, depth)
+                self.walk(st.orelse, dict(rank0=facts["rank0"], missing={}), dict(e), depth)
+                for a in [a for a in env if a not in e]:
+                    del env[a]
+            return False, dict(rank0=facts["rank0"], missing={})
+        if isinstance(st, ast.While):
+            self._scan_expr(N.subst(st.test, env), facts, env, depth, st)
+            e = dict(env)
+            self.walk(st.body, dict(rank0=facts["rank0"], missing={}), e, depth)
+            self.walk(st.orelse, dict(rank0=facts["rank0"], missing={}), dict(e), depth)
+            for a in [a for a in env if a not in e]:
+                del env[a]
+            return False, dict(rank0=facts["rank0"], missing={})
+        if isinstance(st, ast.With):
+            for item in st.items:
+                self._scan_expr(N.subst(item.context_expr, env), facts, env, depth, st)
+            f = self._copy(facts)
+            j = self.walk(st.body, f, env, depth)
+            return j, f
+        if isinstance(st, ast.Try):
+            for part in [st.body] + [h.body for h in st.handlers] + [st.orelse, st.finalbody]:
+                e = dict(env)
+                self.walk(part, dict(rank0=facts["rank0"], missing={}), e, depth)
+                for a in [a for a in env if a not in e]:
+                    del env[a]
+            return False, dict(rank0=facts["rank0"], missing={})
+        if isinstance(st, (ast.FunctionDef, ast.AsyncFunctionDef)):
+            if isinstance(st, ast.AsyncFunctionDef) and _creates_directly(st):
+                raise ExtractError("async helper %s creates directories (line %d)" % (st.name, st.lineno))
+            if isinstance(st, ast.FunctionDef):
+                self.scope.nested[st.name] = st          # body is walked where it is called (N7)
+            return False, facts
+        if isinstance(st, ast.ClassDef):
+            if _creates_directly(st):
+                raise ExtractError("nested class %s creates directories (line %d)" % (st.name, st.lineno))
+            return False, facts
+        if isinstance(st, (ast.Continue, ast.Break)):
+            return True, facts
+        if isinstance(st, (ast.Return, ast.Raise)):
+            for v in [x for x in (getattr(st, "value", None), getattr(st, "exc", None)) if x is not None]:
+                self._scan_expr(N.subst(v, env), facts, env, depth, st)
+            return True, facts
+        # simple statements -----------------------------------------------------------------------------------------
+        if isinstance(st, ast.Assign):
+            val = N.subst(st.value, env)
+            self._scan_expr(val, facts, env, depth, st)
+            pairs = []
+            for t in st.targets:                                  # chained assignment a = b = v
+                if isinstance(t, ast.Tuple) and isinstance(val, ast.Tuple) and len(t.elts) == len(val.elts) \
+                        and all(isinstance(x, (ast.Name, ast.Attribute)) for x in t.elts):
+                    pairs += list(zip(t.elts, val.elts))           # tuple assignment
+                else:
+                    pairs.append((t, val))
+            bound = set()
+            for t, v in pairs:
+                for x in ast.walk(t):
+                    if isinstance(x, ast.Name) and isinstance(x.ctx, ast.Store):
+                        bound.add(x.id)
+                if isinstance(t, ast.Attribute):
+                    bound.add(ast.unparse(t))
+            self._rebind(facts, env, bound)
+            # a tuple assignment evaluates the whole right-hand side first: only record values that do not mention a
+            # name bound by this very statement; and only values all of whose names are never re-bound
+            for t, v in pairs:
+                ok = N.is_pure(v) and not (N.names_in(v) & bound) and all(self.stores.get(x, 0) <= 1 for x in N.names_in(v))
+                if isinstance(t, ast.Name) and self.stores.get(t.id, 0) == 1 and ok:
+                    env[t.id] = v
+                if isinstance(t, ast.Attribute) and ok and N.is_pure(t) and not isinstance(v, (ast.Name, ast.Attribute, ast.Constant)):
+                    self.attr_of[ast.unparse(v)] = ast.unparse(t)  # N6: the directory is named by the attribute holding it
+            return False, facts
+        if isinstance(st, (ast.AugAssign, ast.AnnAssign)):
+            if st.value is not None:
+                self._scan_expr(N.subst(st.value, env), facts, env, depth, st)
+            self._rebind(facts, env, {x.id for x in ast.walk(st.target) if isinstance(x, ast.Name)})
+            return False, facts
+        if isinstance(st, ast.Delete):
+            self._rebind(facts, env, {x.id for t in st.targets for x in ast.walk(t) if isinstance(x, ast.Name)})
+            return False, facts
+        if isinstance(st, ast.Expr):
+            self._scan_expr(N.subst(st.value, env), facts, env, depth, st)
+            return False, facts
+        if isinstance(st, ast.Assert):
+            self._scan_expr(N.subst(st.test, env), facts, env, depth, st)
+            return False, facts
+        if isinstance(st, (ast.Pass, ast.Import, ast.ImportFrom, ast.Global, ast.Nonlocal)):
+            return False, facts
+        # anything else (match, async with, ...) must not hide a creation
+        if _creates_directly(st) or any(self.scope.lookup(c) is not None and self.scope.creates(self.scope.lookup(c)[0])
+                                        for c in ast.walk(st) if isinstance(c, ast.Call)):
+            raise ExtractError("directory creation inside an unsupported statement (%s, line %d)" % (type(st).__name__, st.lineno))
+        return False, facts
+
+    def _rebind(self, facts, env, bound):
+        self._forget(facts, env, names=bound)
+        for a in bound:
+            env.pop(a, None)
+
+    # ---- expressions: creations and helper calls, in evaluation order -------------------------------------------
+    def _scan_expr(self, e, facts, env, depth, st):
+        for c in self._calls_in_order(e):
+            nm = _call_name(c)
+            if nm.split(".")[-1] in CREATORS:
+                self._creation(c, nm, facts, env, st)
+                continue
+            hit = self.scope.lookup(c)
+            if hit is None:
+                self.scope.refuse_foreign_method(c, getattr(st, "lineno", 0))
+            if hit is not None and self.scope.creates(hit[0]):
+                if depth >= 1:
+                    raise ExtractError("helper %s creates directories two call levels below the anchored function (line %d)" % (nm, st.lineno))
+                self._inline(c, hit[0], hit[1], facts, env, st)
+
+    def _calls_in_order(self, e):
+        out = []
+
+        def rec(n):
+            if isinstance(n, (ast.Lambda, ast.GeneratorExp, ast.ListComp, ast.SetComp, ast.DictComp)):
+                hidden = [c for c in ast.walk(n) if isinstance(c, ast.Call) and self.scope.lookup(c) is not None
+                          and self.scope.creates(self.scope.lookup(c)[0])]
+                if _creates_directly(n) or hidden:
+                    raise ExtractError("directory creation inside a lambda/comprehension (line %d)" % getattr(n, "lineno", 0))
+                return
+            for ch in ast.iter_child_nodes(n):
+                rec(ch)
+            if isinstance(n, ast.Call):
+                out.append(n)
+        rec(e)
+        return out
+
+    def _dir_name(self, d):
+        t = ast.unparse(d)
+        return self.attr_of.get(t, t)
+
+    def _creation(self, c, nm, facts, env, st):
+        line = getattr(st, "lineno", 0)
+        if nm not in ("os.mkdir", "os.makedirs"):
+            raise ExtractError("directory creation by %s at line %d is not modelled" % (nm, line))
+        args = list(c.args)
+        kw = {k.arg: k.value for k in c.keywords}
+        if None in kw or any(isinstance(a, ast.Starred) for a in args):
+            raise ExtractError("%s called with * / ** arguments at line %d" % (nm, line))
+        first = "path" if nm == "os.mkdir" else "name"
+        d = args[0] if args else kw.get(first)
+        if d is None:
+            raise ExtractError("%s without a directory argument at line %d" % (nm, line))
+        eo = kw.get("exist_ok", args[2] if len(args) > 2 and nm == "os.makedirs" else None)
+        exist_ok = isinstance(eo, ast.Constant) and eo.value is True
+        key = ast.unparse(d)
+        if nm == "os.makedirs" and exist_ok:
+            kind = "makedirsExistOk"
+        elif key in facts["missing"]:
+            kind = "checkMkdir"
+            del facts["missing"][key]                    # one creation per existence test
         else:
-            for c in ast.walk(st):
-                if isinstance(c, ast.Call) and ast.unparse(c.func) in ("os.mkdir", "os.makedirs"):
-                    exist_ok = any(kw.arg == "exist_ok" and isinstance(kw.value, ast.Constant) and kw.value.value is True for kw in c.keywords)
-                    if not exist_ok:
-                        raise ExtractError("unguarded os.mkdir at line %d" % c.lineno)
-                    out.append(("makedirsExistOk", ast.unparse(c.args[0]), rank0, c.lineno))
-    return out
+            raise ExtractError("unguarded %s at line %d" % (nm, line))
+        self.steps.append(dict(kind=kind, dir=self._dir_name(d), rank0=bool(facts["rank0"]), line=line, barrier=None))
+        self._forget(facts, env, created=True)
+
+    def _inline(self, call, fn, drop_self, facts, env, st):                                   # N7
+        line = getattr(st, "lineno", 0)
+        a = fn.args
+        deco = [d for d in fn.decorator_list if not (isinstance(d, ast.Name) and d.id == "staticmethod")]
+        if a.vararg or a.kwarg or deco or any(isinstance(x, (ast.Yield, ast.YieldFrom, ast.Await)) for x in ast.walk(fn)):
+            raise ExtractError("helper %s (called at line %d) cannot be inlined (varargs, decorator or generator)" % (fn.name, line))
+        params = [x.arg for x in a.posonlyargs + a.args]
+        if drop_self:
+            if not params:
+                raise ExtractError("method %s has no self parameter" % fn.name)
+            self_name, params = params[0], params[1:]
+        if any(isinstance(x, ast.Starred) for x in call.args) or any(k.arg is None for k in call.keywords) or len(call.args) > len(params):
+            raise ExtractError("call of helper %s at line %d uses * / ** or too many arguments" % (fn.name, line))
+        bind = {}
+        for p, v in zip(params, call.args):
+            bind[p] = v
+        for k in call.keywords:
+            if k.arg in bind or k.arg not in params + [x.arg for x in a.kwonlyargs]:
+                raise ExtractError("call of helper %s at line %d: bad keyword %s" % (fn.name, line, k.arg))
+            bind[k.arg] = k.value
+        defaults = dict(zip([x.arg for x in (a.posonlyargs + a.args)][len(a.posonlyargs + a.args) - len(a.defaults):], a.defaults))
+        defaults.update({x.arg: d for x, d in zip(a.kwonlyargs, a.kw_defaults) if d is not None})
+        stores = self._store_counts(fn)
+        e = {}
+        for p in params + [x.arg for x in a.kwonlyargs]:
+            if p not in bind:
+                if p not in defaults:
+                    raise ExtractError("call of helper %s at line %d does not bind parameter %s" % (fn.name, line, p))
+                bind[p] = defaults[p]
+            # arguments are already resolved in the caller's environment (the call expression was substituted)
+            if N.is_pure(bind[p]) and stores.get(p, 0) == 1 and all(self.stores.get(x, 0) <= 1 for x in N.names_in(bind[p])):
+                e[p] = bind[p]
+        if drop_self and self_name != "self":
+            e[self_name] = ast.Name(id="self", ctx=ast.Load())
+        # names of the caller that the helper's own locals would shadow must not leak in: helper locals are never in e
+        sub = _Walk.__new__(_Walk)
+        sub.scope, sub.fn, sub.steps = self.scope, fn, self.steps
+        sub.rank_names = self._rank_names(self.scope, fn, stores)
+        sub.stores = dict(stores)
+        for x in {n for v in e.values() for n in N.names_in(v)}:
+            # caller's names inside argument values: bound at most once in the caller (checked above); if the helper
+            # binds the same name locally the value would be captured wrongly, so such a parameter stays symbolic
+            if stores.get(x, 0) > 0:
+                for p_ in [p_ for p_, v in e.items() if x in N.names_in(v)]:
+                    del e[p_]
+        sub.attr_of = self.attr_of
+        n0 = len(self.steps)
+        sub.walk(fn.body, dict(rank0=facts["rank0"], missing={}), e, 1)
+        if len(self.steps) > n0:
+            self._forget(facts, env, created=True)
+
+    # ---- N8 -------------------------------------------------------------------------------------------------------
+    def _inert(self, st, env, nested=False):
+        if isinstance(st, ast.If):
+            t_lits, f_lits = N.branch_facts(N.subst(st.test, env))
+            r_true = any(N.rank0_literal(p, a, self.rank_names) is True for p, a in t_lits)
+            r_false = any(N.rank0_literal(p, a, self.rank_names) is True for p, a in f_lits)
+            test_ok = all(_call_name(c) in INERT_CALLS + N.PURE_CALLS for c in ast.walk(st.test) if isinstance(c, ast.Call))
+            return test_ok and (r_true or all(self._inert(s, env, nested) for s in st.body)) \
+                and (r_false or all(self._inert(s, env, nested) for s in st.orelse))
+        if isinstance(st, ast.For):
+            it = N.subst(st.iter, env)
+            return not st.orelse and (N.is_pure(it) or N.loop_bindings(st.target, it) is not None) \
+                and all(self._inert(s, env, nested) for s in st.body)
+        if isinstance(st, (ast.Assign, ast.AugAssign, ast.AnnAssign, ast.Expr, ast.Pass)):
+            return all(self._inert_call(c, env, nested) for c in ast.walk(st) if isinstance(c, ast.Call)) \
+                and not any(isinstance(x, (ast.Yield, ast.YieldFrom, ast.Await, ast.NamedExpr)) for x in ast.walk(st))
+        if isinstance(st, ast.Return) and nested:
+            return st.value is None or N.is_pure(st.value)
+        return False
+
+    def _inert_call(self, c, env, nested):
+        if _call_name(c) in INERT_CALLS + N.PURE_CALLS:
+            return True
+        hit = self.scope.lookup(c)                        # a helper of this module all of whose statements are inert
+        if hit is not None and not nested:
+            fn = hit[0]
+            rn, self.rank_names = self.rank_names, self._rank_names(self.scope, fn, self._store_counts(fn))
+            try:
+                return not fn.decorator_list[1:] and self._inert_body(fn.body)
+            finally:
+                self.rank_names = rn
+        return False
+
+    def _inert_body(self, body):
+        """is a helper's body inert for every rank but rank 0?"""
+        for st in body:
+            if isinstance(st, ast.Expr) and isinstance(st.value, ast.Constant):
+                continue                                   # docstring
+            if not self._inert(st, {}, nested=True):
+                return False
+            if isinstance(st, ast.If) and not st.orelse and st.body and isinstance(st.body[-1], ast.Return):
+                f_lits = N.branch_facts(st.test)[1]
+                if any(N.rank0_literal(p_, a_, self.rank_names) is True for p_, a_ in f_lits):
+                    return True                            # `if rank != 0: return` - the rest runs on rank 0 only
+        return True
+
+    def _barrier_follows(self, rest, env):
+        for st in rest:
+            if isinstance(st, ast.Expr) and isinstance(st.value, ast.Call) and isinstance(st.value.func, ast.Attribute) \
+                    and st.value.func.attr in ("Barrier", "barrier") and not st.value.args and not st.value.keywords:
+                return True
+            if not self._inert(st, env):
+                return False
+        return False
+
+
+def _protocol(module, fn, cls=None):
+    w = _Walk(_Scope(module, cls), fn)
+    w.walk(fn.body, dict(rank0=False, missing={}), {}, 0)
+    return w.steps
 
 
 def protocols(stage):
+    """[(name, [(kind, dir, rank0Only, line)], barrierAfter)]"""
     res = []
     lk = extract._parse(stage, "esr/fitting/likelihood.py")
     # every class's __init__ (subclasses call super().__init__)
     for cls in [n for n in lk.body if isinstance(n, ast.ClassDef)]:
         for fn in [n for n in cls.body if isinstance(n, ast.FunctionDef) and n.name == "__init__"]:
-            st = _steps(fn.body)
+            st = _protocol(lk, fn, cls)
             if st:
-                res.append(("likelihood.%s.__init__" % cls.name, st, False))
+                res.append(("likelihood.%s.__init__" % cls.name, st))
     ta = extract._parse(stage, "esr/fitting/test_all.py")
-    gf = extract.find_def(ta, "get_functions")
-    st = _steps(gf.body)
-    # barrier directly after the rank-0 block?
-    barrier = False
-    for k, n in enumerate(gf.body):
-        if isinstance(n, ast.If) and "rank" in ast.unparse(n.test) and any("mkdir" in ast.unparse(c) for c in ast.walk(n)):
-            nxt = gf.body[k + 1] if k + 1 < len(gf.body) else None
-            barrier = nxt is not None and "comm.Barrier()" in ast.unparse(nxt)
+    st = _protocol(ta, extract.find_def(ta, "get_functions"))
     if st:
-        res.append(("test_all.get_functions", st, barrier))
-    return res
+        res.append(("test_all.get_functions", st))
+    out = []
+    for name, st in res:
+        r0 = [s for s in st if s["rank0"]]
+        barrier = bool(r0) and all(s["barrier"] is True for s in r0)
+        out.append((name, [(s["kind"], s["dir"], s["rank0"], s["line"]) for s in st], barrier))
+    # the set-up of the fitting stages creates directories in both places; a tree where one of them creates none has
+    # moved the creation somewhere this translator does not look: do not emit a table that silently lacks it
+    have = [n for n, _, _ in out]
+    for need in ("likelihood.Likelihood.__init__", "test_all.get_functions"):
+        if need not in have:
+            raise ExtractError("no directory-creation step found in %s (creation moved out of the anchored code?)" % need)
+    return out
 
 
 @extract.extractor("DirProto")
